@@ -1,6 +1,7 @@
 (** Property C10: rejections are justified, correctly classified, and carry the CLI exit contract.
     This file contains only the pinned statements; proofs live in Errors/KindTable.v,
-    Errors/Suggest.v, ParseProofs/ErrorSound.v and ParseProofs/KindSound.v (round 2). *)
+    Errors/Suggest.v, ParseProofs/ErrorSound.v, ParseProofs/KindSound.v (round 2) and ParseProofs/RequiresChain.v
+    (the repair of unroll_arg_requires: kept pre-repair function, witnesses, monotonicity). *)
 From ClapModel Require Import Base.Bytes Base.Machine Base.Utf8.
 From ClapModel Require Import Parse.Cmd Parse.Build Parse.Valid Parse.Matcher Parse.Errors Parse.Validator Parse.Parser.
 From ClapModel Require Import Gen.ErrorTables Errors.KindTable Errors.Suggest ParseProofs.ErrorSound.
